@@ -9,7 +9,7 @@ META = {
     "engine": "afc",
     "technique": "TLA+ spec ShmMutex (one action per atomic access of sys_lock/sys_unlock/futex) model-checked with TLC for MutualExclusion and NoLostWakeup; TLC's state graph is turned into edge-covering schedules that are replayed on the real mutex under the yield-point scheduler (spec->impl conformance), the verdict coming from the critical-section occupancy counter and the lost-wake-up detector",
     "text": "TLC checks the fine-grained PlusCal model of the futex mutex (CAS fast path, passive spin with the code's count, swap to SLEEPING, futex compare-and-block, swap to UNLOCKED, wake one) for mutual exclusion with and without spurious wake-ups and, under weak fairness without spurious wake-ups, that every locker eventually enters the critical section and all threads finish; a spec-level mutant (wake only when LOCKED was seen) must be rejected. The labelled state graph for 2 threads x 2 rounds and 3 threads x 1 round with PASSIVE_SPIN=5 is dumped, a set of complete paths covering every transition is computed and each path is executed step by step on the real Mutex (yield points before every atomic access, futex wait/wake routed to the scheduler), comparing key word, per-thread site and sleeper set after every step; random complete behaviours of 3 threads x 2 rounds come from TLC simulation. VIOLATION only if two threads are inside the critical section or a thread stays parked in futex_wait when nothing can wake it.",
-    "note": "Bounds: <=3 threads, <=2 rounds; PASSIVE_SPIN=5 in all replayed schedules, 1 in the 3x2 design-level run of the quick tier (5 in thorough). Sequentially consistent interleavings only: weakening an atomic Ordering is not detectable (DESIGN §9). Test threads are coroutines on one OS thread (the scheduler serialises execution anyway). Trusts the yield points to sit before every access of the key word (a missing one shows as drift).",
+    "note": "Bounds: <=3 threads, <=2 rounds; PASSIVE_SPIN=5 in all replayed schedules and in the 2x2 liveness run; 3x2 design-level runs: safety+liveness with PASSIVE_SPIN=1 (thorough also 2), safety with 5 (thorough). Sequentially consistent interleavings only: weakening an atomic Ordering is not detectable (DESIGN §9). Test threads are coroutines on one OS thread (the scheduler serialises execution anyway). Trusts the yield points to sit before every access of the key word (a missing one shows as drift).",
 }
 
 ACTIONS = ["cas1", "spin", "scas", "swp", "fw", "slp", "cs", "cs2", "unl", "wk"]
@@ -29,7 +29,10 @@ def run(ctx):
     cfg = "MC_ShmMutex_thorough.cfg" if ctx.thorough else "MC_ShmMutex.cfg"
     r = ctx.tlc("ShmMutex", cfg, timeout=2400, cache=True)
     ctx.require_actions(r, ACTIONS)
+    ctx.tlc("ShmMutex", "MC_ShmMutex_live5.cfg", timeout=1200, cache=True)
     if ctx.thorough:
+        ctx.tlc("ShmMutex", "MC_ShmMutex.cfg", timeout=1200, cache=True)
+        ctx.tlc("ShmMutex", "MC_ShmMutex_live2.cfg", timeout=2400, cache=True)
         ctx.tlc("ShmMutex", "MC_ShmMutex_spur.cfg", timeout=1200, cache=True)
     # 2. the liveness half is not vacuous: the spec-level lost-wake-up mutant must be rejected
     rm = ctx.tlc("ShmMutex", "MC_ShmMutex_mutant.cfg", allow_violation=True, timeout=600)
